@@ -402,6 +402,67 @@ var wlSubscribeOverlap = Workload{
 	},
 }
 
+// wlBrokerBurst: the broker sends 2-5 PUBLISHes back to back (no quiescence in between) on a mix of new,
+// repeated-new, short, predefined and already registered names while the client acknowledges
+// REGISTER/PUBLISH 0 / 1 ms / 500 ms late: several gateway-initiated exchanges (REGISTER + PUBLISH) are in
+// flight at once. Two bursts per session; everything must arrive (C02), under consistent IDs (C04).
+var wlBrokerBurst = Workload{
+	Name: "broker-burst",
+	N:    func(r *rt.Run) int { return r.N(600, 12000) },
+	Run: func(t *testing.T, c *rt.Case, i int, rng *rand.Rand) *GWRun {
+		pre := trafficPredef(rng)
+		cfg := world.GWConfig{Predefined: pre, RetryDelay: 10 * time.Second, RetryCount: 2}
+		bcfg := world.BrokerCfg{FirstID: uint16([]int{30000, 65533, 1}[rng.Intn(3)])}
+		ackDelay := []time.Duration{0, time.Millisecond, 500 * time.Millisecond}[i%3]
+		clientID := []string{"cl", "other"}[rng.Intn(2)]
+		g := &GWRun{Cfg: cfg, BCfg: bcfg, NSess: 1}
+		say := func(f string, a ...interface{}) { g.Script = append(g.Script, fmt.Sprintf(f, a...)) }
+		names := []string{"n/1", "n/2", "n/3", "ab", "pre/one", "pre/two", "a/b", "n/1"}
+		bubble(t, func() {
+			w := world.New(cfg)
+			b := world.NewBroker(bcfg)
+			s := w.NewSession(peerHandler(PeerOpts{AckDelay: ackDelay}), b.Handler())
+			synctest.Wait()
+			send := func(p *snref.Pkt) { say("client sends %s", p); s.SNSendP(p); synctest.Wait() }
+			send(snref.Connect(clientID, 60, false, true))
+			send(snref.SubscribeName(2, 2, "#"))
+			if rng.Intn(2) == 0 {
+				send(snref.Register(0, 3, "a/b"))
+			}
+			time.Sleep(10 * time.Millisecond)
+			synctest.Wait()
+			tag := 0
+			for burst := 0; burst < 2; burst++ {
+				k := 2 + rng.Intn(4)
+				for n := 0; n < k; n++ {
+					tag++
+					name, q := names[rng.Intn(len(names))], byte(rng.Intn(3))
+					say("broker publishes topic=%q qos=%d (burst %d)", name, q, burst)
+					b.Publish(s, name, q, rng.Intn(5) == 0, []byte(fmt.Sprintf("c%d-%d|", c.I, tag)))
+				}
+				d := []time.Duration{0, time.Millisecond, 3 * time.Second}[rng.Intn(3)]
+				say("advance %v", d)
+				time.Sleep(d)
+				synctest.Wait()
+			}
+			time.Sleep(5 * time.Second)
+			synctest.Wait()
+			send(snref.Pingreq(""))
+			time.Sleep(time.Second)
+			synctest.Wait()
+			w.Tr.Add(0, world.Note, nil, "teardown")
+			w.Finish()
+			synctest.Wait()
+			g.Evs = w.Tr.Events()
+			handleLeaks(c, g)
+			w.WaitHarness()
+		})
+		g.Desc = strings.Join(g.Script, ";") + fmt.Sprintf("|ack-delay=%v|", ackDelay) + cfgString(pre)
+		g.Items, g.RestOut = g.Session(0)
+		return g
+	},
+}
+
 // Hostile but decodable traffic.
 var wlTrafficHostile = mkTrafficWL("traffic-hostile", 3000, 60000, func(rng *rand.Rand) trafficOpts {
 	return trafficOpts{Steps: 4 + rng.Intn(14), Names: defaultNames, ClientID: []string{"cl", "other"}[rng.Intn(2)], Predef: trafficPredef(rng),
@@ -424,7 +485,7 @@ func TestC01(t *testing.T) {
 
 func TestC02(t *testing.T) {
 	r := rt.Start(t, "C02")
-	runWorkloads(t, r, []Workload{wlTrafficBroker, wlTrafficClean, wlSubscribeOverlap, wlTrafficOverlap}, func(g *GWRun) ([]monitors.V, int) {
+	runWorkloads(t, r, []Workload{wlTrafficBroker, wlTrafficClean, wlSubscribeOverlap, wlTrafficOverlap, wlBrokerBurst}, func(g *GWRun) ([]monitors.V, int) {
 		return monitors.C02(g.Items, toPredef(g.Cfg.Predefined))
 	})
 	r.Finish(trafficRule+" Oracle C02: every broker PUBLISH injected while the client is active is delivered exactly once (DUP retransmissions aside) with the same payload/QoS/retain/message ID under a (type, ID) that the client's own knowledge - short decoding, shared predefined map, REGISTERs it accepted, SUBACK/REGACK IDs - resolves to the broker's topic.", nil)
@@ -438,4 +499,4 @@ func TestC03(t *testing.T) {
 	r.Finish(trafficRule+" Oracle C03: per packet type, the sequences on the two links correspond one-to-one in order with equal message IDs (SUBSCRIBE/UNSUBSCRIBE: resolved filter and requested QoS; SUBACK: accepted iff broker code 0-2, granted QoS, topic ID by filter kind).", nil)
 }
 
-const trafficRule = "workloads: adaptive lock-step sessions against the real handler in virtual time: CONNECT, then 4-32 random steps over {REGISTER, SUBSCRIBE (string/wildcard/short/predefined, QoS 0-2), UNSUBSCRIBE, PUBLISH (every DUP/QoS/retain combination; IDs drawn from confirmed registrations, predefined IDs 1-6 incl. client/'*' overlaps, short names, and - hostile variant - unknown/0/0xFFFF IDs, reserved type 3, wildcard names, QoS 3 subscriptions, message IDs 0/0xFFFF), PUBREL, PINGREQ, broker PUBLISH QoS 0-2 on short/predefined/registered/new names}, 4 predefined-map shapes x 3 client IDs, broker SUBACK policies {as requested, random 0-2, sometimes 0x80}, payload sizes {0,1,2,246..252,1000,7168}; the generator learns assigned IDs from the wire. A case is non-trivial when the oracle's antecedent fired; distinct by script."
+const trafficRule = "workloads: adaptive lock-step sessions against the real handler in virtual time: CONNECT, then 4-32 random steps over {REGISTER, SUBSCRIBE (string/wildcard/short/predefined, QoS 0-2), UNSUBSCRIBE, PUBLISH (every DUP/QoS/retain combination; IDs drawn from confirmed registrations, predefined IDs 1-6 incl. client/'*' overlaps, short names, and - hostile variant - unknown/0/0xFFFF IDs, reserved type 3, wildcard names, QoS 3 subscriptions, message IDs 0/0xFFFF), PUBREL, PINGREQ, broker PUBLISH QoS 0-2 on short/predefined/registered/new names}, 4 predefined-map shapes x 3 client IDs, broker SUBACK policies {as requested, random 0-2, sometimes 0x80}, payload sizes {0,1,2,246..252,1000,7168}; the generator learns assigned IDs from the wire. plus (C02, C04) broker bursts: 2-5 broker PUBLISHes back to back on new / repeated / short / predefined / registered names while the client acknowledges REGISTER and PUBLISH 0 / 1 ms / 500 ms late, so that several gateway-initiated exchanges are in flight at once. A case is non-trivial when the oracle's antecedent fired; distinct by script."
